@@ -10,8 +10,9 @@ import NxsModel.Lemmas.Config
 namespace Nxs.C11
 open Nxs Nxs.Config
 
+/-- a device the client can be connected to: 0..255 channels, 8-bit dividers -/
 def WFDev (d : Device) : Prop :=
-  1 ≤ d.en.length ∧ d.en.length ≤ 255 ∧ d.div.length = d.en.length ∧ ∀ v ∈ d.div, 0 ≤ v ∧ v ≤ 255
+  d.en.length ≤ 255 ∧ d.div.length = d.en.length ∧ ∀ v ∈ d.div, 0 ≤ v ∧ v ≤ 255
 
 def after (d0 : Device) (flags : Nat) (ops : List Op) : Client × Device × List StepOut :=
   run (Client.init d0 flags) d0 ops
@@ -64,6 +65,16 @@ theorem source_shape :
 /-- non-vacuity: the historical defect (applied, ACK lost, then a single-channel change) converges -/
 example : (after ⟨[false, false, false], [0, 0, 0]⟩ 3
     [.enable [0, 1], .write .ack .appliedAckLost, .disable [1], .write .ack .ack]).2.1.en = [true, false, false] := by
+  decide +kernel
+
+/-- non-vacuity of the zero-channel case: a device without channels is well formed … -/
+example : WFDev ⟨[], []⟩ := by simp [WFDev]
+
+/-- … and a history with writes on it (whatever the device would answer) ends in the empty state, with
+    no request in doubt -/
+example : (after ⟨[], []⟩ 3 [.enableAll, .write .lost (.nack 1), .write .ack .ack]).2.1 = ⟨[], []⟩ ∧
+    (after ⟨[], []⟩ 3 [.enableAll, .write .lost (.nack 1), .write .ack .ack]).1.enResync = false ∧
+    (after ⟨[], []⟩ 3 [.enableAll, .write .lost (.nack 1), .write .ack .ack]).1.divResync = false := by
   decide +kernel
 
 end Nxs.C11
